@@ -439,6 +439,8 @@ type c11Info struct {
 	NSelIdx int
 	UBS     bool // some selected indexed input is preceded by an unselected indexed one
 	Rename  map[string]string
+	// MayRefuse: start-up may refuse the declaration with an error containing this text (counted, not judged)
+	MayRefuse string
 }
 
 func (info *c11Info) countIndexed(inputs []refmodel.Field) {
@@ -1090,6 +1092,12 @@ func c11Catalogue() []struct {
 		{"Transfer", []refmodel.Field{f("from", A, true, ""), f("to", A, true, "t"), f("value", U, false, "")}},           // data present, nothing selected from it
 		{"Delta", []refmodel.Field{f("x", I8, true, "x"), f("y", I8, false, "y"), f("z", refmodel.Int(256), false, "z")}}, // small signed widths
 		{"Batch", []refmodel.Field{f("who", A, true, "who"), f("ids", refmodel.ArrayOf(refmodel.Uint(64)), false, "id")}}, // element index
+		// unnamed inputs (ABIs may leave them unnamed): one is unambiguous; several cannot be told apart by name and
+		// are either refused at start-up or bound to the right topic
+		{"Named1", []refmodel.Field{f("x", A, true, "x"), f("", A, true, "y"), f("v", U, false, "v")}},
+		{"Unnamed2", []refmodel.Field{f("", A, true, "a"), f("", A, true, "b"), f("v", U, false, "v")}},
+		{"Unnamed2", []refmodel.Field{f("", A, true, ""), f("", A, true, "b"), f("v", U, false, "v")}},
+		{"Unnamed3", []refmodel.Field{f("", A, true, "a"), f("", A, true, ""), f("", A, true, "c")}},
 	}
 }
 
@@ -1100,6 +1108,15 @@ func c11Direct(c *vk.Case) {
 			d := &model.Decl{Name: namePoolIG[0], Enabled: true, Table: namePoolTbl[0], ColTypes: map[string]string{}, InFilter: map[string]model.Filter{}, EventName: e.name, Inputs: e.inputs}
 			d.Sources = []model.SrcRef{{Name: namePoolSrc[0], Start: 1}}
 			info := &c11Info{Mode: model.ModeLog, Class: "catalogue", Rename: map[string]string{}}
+			unnamed := 0
+			for _, in := range e.inputs {
+				if in.Name == "" {
+					unnamed++
+				}
+			}
+			if unnamed > 1 {
+				info.MayRefuse = "duplicate input"
+			}
 			info.countIndexed(d.Inputs)
 			c11DirectRun(c, r, d, info)
 		}
@@ -1129,6 +1146,9 @@ func c11DirectRun(c *vk.Case, r *vk.RNG, d *model.Decl, info *c11Info) {
 	switch {
 	case p != nil:
 		c.Violate(kp+p.key()+":building-destination", merge(detail, map[string]any{"panic": p}), "building the destination panicked: %s", p.Val)
+		return
+	case err != nil && info.MayRefuse != "" && strings.Contains(err.Error(), info.MayRefuse):
+		c.Obs("ambiguous_declarations_refused", 1)
 		return
 	case err != nil:
 		c.Violate(kp+"setup-rejected:"+errKey(err.Error()), merge(detail, map[string]any{"error": err.Error()}), "a declaration of the supported domain was rejected: %v", err)
